@@ -382,9 +382,8 @@ def rule_r6(repo, run):
               "the default-argument switch selects the call by the number of supplied arguments, keywords included, and "
               "nothing checks which keywords were given: f(x, a=2, factor=1) called as f(3, factor=10) takes the arm "
               "f(x, a) with `a` unassigned and drops factor - a silently wrong call", wp.loc(f))
-    # dispatcher arity uses the same notion: known mismatch (len(ast.params) counts out/hidden arguments)
+    # dispatcher arity uses the same notion of "argument" as the parse site of wrap_function
     md = wp.func("Wrapp.multi_dispatch")
-    uses_params = "len(overload.ast.params)" in wp.seg(md)
     # each overload is guarded by its own arity: the operands of every SHT_nargs test come from the loop variable
     loops = [n for n in ast.walk(md) if isinstance(n, ast.For) and isinstance(n.target, ast.Name)
              and any(isinstance(x, ast.Constant) and isinstance(x.value, str) and "SHT_nargs" in x.value for x in ast.walk(n))]
@@ -392,21 +391,56 @@ def rule_r6(repo, run):
     if len(loops) != 1:
         raise AnalysisError("C03.R6: overload loop of multi_dispatch not found")
     lv = loops[0].target.id
+    # locals of the loop body that are (parts of) the loop variable: `params = overload.ast.params`
+    derived = {lv}
+    for a in ast.walk(loops[0]):
+        if isinstance(a, ast.Assign) and len(a.targets) == 1 and isinstance(a.targets[0], ast.Name):
+            names = set(x.id for x in ast.walk(a.value) if isinstance(x, ast.Name))
+            if names and names <= derived:
+                derived.add(a.targets[0].id)
+    # the parse site: which attributes decide that a parameter is read from the Python argument list
+    wfn = wp.func("Wrapp.wrap_function")
+    site = [c for c in ast.walk(wfn) if isinstance(c, ast.Call) and wp.seg(c.func) == "arg_names.append"]
+    if len(site) != 1:
+        raise AnalysisError("C03.R6: the parse site (arg_names.append) of wrap_function not found")
+    site_text = " ".join(ast.unparse(t) for t, pol in pyflow.dominating_tests(site[0], stop=wfn))
+    deciding = [k for k in ("intent", "implied", "hidden") if re.search(r"\b%s\b" % k, site_text)]
+    if len(deciding) != 3:
+        raise AnalysisError("C03.R6: the parse site is expected to depend on intent, implied and hidden: %s" % site_text[:120])
     ng = 0
     for b in ast.walk(loops[0]):
         if isinstance(b, ast.BinOp) and isinstance(b.op, ast.Mod) and isinstance(b.left, ast.Constant) \
                 and isinstance(b.left.value, str) and "SHT_nargs" in b.left.value:
             ng += 1
-            roots = set(x.id for x in ast.walk(b.right) if isinstance(x, ast.Name)) - {"len"}
-            run.check(R, "wrapp.Wrapp.multi_dispatch:guard[%s]" % re.sub(r"\s+", " ", b.left.value)[:40], roots == {lv},
+            gid = re.sub(r"\s+", " ", b.left.value)[:40]
+            callees = set(ast.unparse(c.func) for c in ast.walk(b.right) if isinstance(c, ast.Call))
+            roots = set(x.id for x in ast.walk(b.right) if isinstance(x, ast.Name)) - callees
+            run.check(R, "wrapp.Wrapp.multi_dispatch:guard[%s]" % gid, roots and roots <= derived,
                       "the arity guard `%s` is computed from %s instead of the overload being dispatched (`%s`): every "
                       "overload is tested against another overload's parameter count"
                       % (b.left.value.strip(), sorted(roots), lv), wp.loc(b), sample=dict(guard=wp.seg(b)))
+            # every number in the guard is a count of *Python* arguments
+            nums = b.right.elts if isinstance(b.right, ast.Tuple) else [b.right]
+            for i, e in enumerate(nums):
+                ok = False
+                if isinstance(e, ast.Call) and isinstance(e.func, ast.Name) and e.func.id != "len":
+                    try:
+                        cf = wp.func(e.func.id)
+                    except Exception:
+                        cf = None
+                    if cf is not None:
+                        keys = set(x.slice.value for x in ast.walk(cf) if isinstance(x, ast.Subscript)
+                                   and isinstance(x.slice, ast.Constant) and isinstance(x.slice.value, str))
+                        keys |= set(x.attr for x in ast.walk(cf) if isinstance(x, ast.Attribute))
+                        keys |= set(x.id for x in ast.walk(cf) if isinstance(x, ast.Name))
+                        ok = all(k in keys for k in deciding)
+                run.check(R, "wrapp.Wrapp.multi_dispatch:arity" if i == 0 and len(nums) == 1 else
+                          "wrapp.Wrapp.multi_dispatch:arity[%s:%d]" % (gid, i), ok,
+                          "the dispatcher compares the number of arguments the caller passed with `%s`, which is not a count of the "
+                          "parameters wrap_function parses (it decides on %s): an overload with intent(out)/hidden/implied "
+                          "parameters is unreachable, or the wrong overload is entered"
+                          % (ast.unparse(e), ", ".join(deciding)), wp.loc(e))
     run.floor(R, "arity guards in the dispatcher", ng, 2)
-    run.check(R, "wrapp.Wrapp.multi_dispatch:arity", not uses_params,
-              "the dispatcher compares the supplied count with len(overload.ast.params), which also counts "
-              "intent(out)/hidden/implied arguments that Python never passes: such overloads are unreachable",
-              wp.loc(md))
 
 
 def rule_r7(repo, run):
